@@ -147,6 +147,7 @@ type Exec struct {
 	lastInstr    ssa.Instruction
 	clock        *Term
 	timers       []timerRec
+	pools        map[*Value][]Value // sync.Pool contents
 	seals        []*sealRec
 	hashFacts    []hashFact
 	hashApps     []hashFact
